@@ -17,7 +17,7 @@ import sys
 import time
 
 LINE = re.compile(r'^(?P<file>.*?):(?P<line>\d+): (?P<kind>info|error): (?P<msg>.*)$')
-CALL = re.compile(r'when calling (?P<call>\w+\(.*\))(?: \(which (?:returns|raises).*\))?$')
+CALL = re.compile(r'when calling (?P<call>\w+\(.*?\))(?: \(which .*\))?$')
 
 
 def _functions(path):
@@ -66,10 +66,16 @@ def finish(h, module_name, only=None):
             if err:
                 cm = CALL.search(err[0])
                 reproduced = None
+                code = None
                 if cm:
                     try:
+                        code = compile(cm.group('call'), '<crosshair-counterexample>', 'eval')
+                    except SyntaxError:
+                        code = None  # could not parse the reported call: nothing is claimed
+                if code is not None:
+                    try:
                         mod = mod or importlib.import_module(module_name)
-                        r = eval(cm.group('call'), {**vars(mod)})  # plain-Python replay of the reported call
+                        r = eval(code, {**vars(mod)})  # plain-Python replay of the reported call
                         reproduced = not r
                     except Exception as e:  # the law raised: also a failure of the law
                         reproduced = True
